@@ -338,6 +338,45 @@ REGISTRY["C20"] = dict(_c20a, **{
 })
 
 
+# Server mode ("Tier B", ledger/srvnet*.go): about one third of the C19 and C20(ledger) plans and one fifth of the C07 plans run whole
+# network.Server instances instead of the server.go stub of the network simulation.
+_SRV_REAL = ["server mode: pkg/network.Server per node (VerifNewServer + Start: peer management loop, handshake, inv/getdata gossip, block relay, "
+             "RequestTx, extensible pool, getblockbyindex / getheaders / getmptdata synchronisation requests, RelayTxn / RelayTxnDirectly), "
+             "pkg/network.TCPPeer per connection (read loop, three send queues, ping/pong timers), the Server's bqueue.Queue instances, "
+             "consensus.Service wired as cli/server/server.go's mkConsensus does, statesync.Module behind the Server for late joiners"]
+_SRV_STUB = ["server mode: transport = harness net.Conn pair per connection (Write = one packet into the driver's outbox, Read = durable block until the "
+             "driver delivers; delay, and in the lossy configuration drop / duplicate / reorder, keyed on the plan's seed; tcp-faithful configuration: "
+             "in sequence, exactly once, blackholes hold packets back, loss only by resetting the connection)",
+             "server mode: discovery = a statement-by-statement port of DefaultDiscovery with sorted instead of Go-map iteration and a seeded "
+             "instead of a random pause before a dial (VERIF_SRV_REALDISC=1 runs the real one)",
+             "server mode: RPC server = harness calling Server.RelayTxn / RelayTxnDirectly"]
+_SRV_RULE = (" || server mode: 4 or 7 validators, 0-1 observers, 0-2 late joiners (full node by block synchronisation, or P2PStateExchangeExtensions + "
+             "RemoveUntraceableBlocks node by P2P state synchronisation; optional restart shortly after joining, also in the middle of a state "
+             "synchronisation), observer restart; fault-free configuration (delays 1-80 ms per hop, 21+ s) or faulty (tcp-faithful or lossy: drop 0-6%, "
+             "duplicate 0-12%, reorder 0-18%, delays up to 20/100/400/1200 ms, silent validators (at most f at a time), partitions, connection resets); "
+             "0-10 client transactions plus 0-6 transactions that reach one validator 1-150 ms before a proposal is due; 1 run in 4 with one "
+             "DisableCompression node and direct relay of deployments")
+_SRV_PROBES = ["srv_runs", "srv_runs_sync", "srv_runs_lossy", "srv_runs_tcp_faithful_faulty", "srv_validators_7", "connections", "redial", "peer_disconnected",
+               "services_started", "getblockbyindex_served", "headers_served", "mptdata_served", "inv_getdata_tx", "consensus_missing_tx",
+               "late_tx_submitted", "joiner_started/joiner-full", "joiner_started/joiner-statesync", "joiner_caught_up_in_bound", "statesync_jump_done",
+               "statesync_state_checked", "joiner_restart_in_the_middle_of_state_sync", "node_restart/observer", "conn_killed", "partition", "silence_span",
+               "pkt_held_by_blackhole", "pkt_dropped", "pkt_duplicated", "pkt_reordered", "view_changed", "undecodable_packet_between_honest_nodes"]
+for _p in ("C19", "C07", "C20"):
+    _r = REGISTRY[_p]
+    REGISTRY[_p] = dict(_r, **{
+        "rule": _r["rule"] + _SRV_RULE,
+        "probes": _r["probes"] + [x for x in _SRV_PROBES if x not in _r["probes"]],
+        "components": {"real": _r["components"]["real"] + _SRV_REAL, "stub": _r["components"]["stub"] + _SRV_STUB},
+        "assumptions": _r["assumptions"] + [
+            "server mode: packets written to one connection at one simulated instant are delivered in an order derived from their content, and a "
+            "packet of several messages is handed to the reader message by message: which goroutine of a node writes first is the Go scheduler's "
+            "decision; BroadcastFactor 100 (with a smaller factor the Server cancels a broadcast after 'enough' per-peer goroutines have queued it)",
+            "server mode: liveness (>= 5 blocks in 20 block times, consecutive blocks at most 2 block times apart, caught-up nodes within 2 blocks of "
+            "the top, joiners caught up 15 block times after their start, all ledgers at one height after the settling phase) is asserted only in "
+            "the fault-free configuration"],
+    })
+
+
 # C11 = trie-level life cycle (engine mptsim, 3 workers out of 4) + the same audit of the raw DataMPT records on the databases of real
 # pruning Blockchain replicas (engine ledger, 1 worker out of 4).
 _c11a = REGISTRY["C11"]
